@@ -167,13 +167,21 @@ def writeSeq (u : Bool) : List Bytes → List Event
   | [b] => blockSeq u 0xFE b
   | blocks => (blocks.flatMap fun b => blockSeq u 0xFC b) ++ [.byte 0xFD]
 
+/-- The data phase of a `write`, judged on the data-phase events `d` of the call: a prefix of
+`writeSeq` — or, for a multiple-block write whose block loop failed, a prefix of the blocks
+followed by the stop token 0xFD, which is sent either way so that the card is not left waiting for
+data blocks — and exactly `writeSeq` when the `write` succeeds. -/
+def WriteFraming (u : Bool) (blocks : List Bytes) (r : SRes Unit) (d : List Event) : Prop :=
+  (d <+: writeSeq u blocks ∨
+    ((∀ b, blocks ≠ [b]) ∧ ∃ pfx, pfx <+: (blocks.flatMap fun b => blockSeq u 0xFC b) ∧ d = pfx ++ [.byte 0xFD])) ∧
+  ((∃ a, r = .ok a) → d = writeSeq u blocks)
+
 /-- A `write` that succeeds has sent exactly `writeSeq` as its data phase; one that fails has
-sent a prefix of it. -/
+sent a prefix of it — or, when a block of a multiple-block write was refused, the blocks up to
+that one and then the stop token. -/
 theorem data_framing_tokens (blocks : List Bytes) (idx : Nat) (s : St σ) :
-    dataEvs (evsNew s (write B blocks idx s).2) <+: writeSeq s.useCrc blocks ∧
-    ((write B blocks idx s).1 = .ok () → dataEvs (evsNew s (write B blocks idx s).2) = writeSeq s.useCrc blocks) := by
-  have h := (Lemmas.Sd.write_dataSeq B s.useCrc blocks idx s rfl).evsNew
-  exact ⟨h.1, fun hok => h.2 ⟨(), hok⟩⟩
+    WriteFraming s.useCrc blocks (write B blocks idx s).1 (dataEvs (evsNew s (write B blocks idx s).2)) :=
+  (Lemmas.Sd.write_dataSeq B s.useCrc blocks idx s rfl).evsNew
 
 /-! ## Multi-block transfers end properly -/
 
@@ -187,10 +195,28 @@ theorem multi_read_terminated (n idx start : Nat) (hn : n ≠ 1) (s : St σ)
       Event.cmd (frame CMD18 start) ∈ pre ∧ AllPolls post :=
   Lemmas.Sd.read_multi_terminated B n idx start hn s hstart r1 s1 h18
 
+/-- A multi-block write whose CMD25 was answered always attempts the stop sequence afterwards,
+whatever happened to the blocks (the counterpart of `multi_read_terminated`): after the events up
+to and including the block loop come the polls of a busy wait, and then the stop token 0xFD —
+right after a poll that showed the card not busy, followed only by polls (the byte that is clocked
+and discarded, then the final busy wait) — unless that wait itself failed (the card was still busy when the write budget ran out, or
+an SPI error occurred: its last poll did not read 0xFF), in which case `write` returns an error. -/
+theorem multi_write_always_stopped (blocks : List Bytes) (idx start : Nat) (hne : ∀ b, blocks ≠ [b]) (s : St σ)
+    (hstart : startIdx s.cardType idx = .ok start) (r0 : Nat) (s1 s2 : St σ) (r1 : Nat) (s3 : St σ)
+    (hacmd : cardAcmd B ACMD23 (blocks.length % 4294967296) s = (.ok r0, s1))
+    (hwait : waitNotBusy B DEFAULT_WRITE_RETRIES s1 = (.ok (), s2))
+    (h25 : cardCommand B CMD25 start s2 = (.ok r1, s3)) :
+    ∃ pre polls rest, evsNew s (write B blocks idx s).2 = pre ++ polls ++ rest ∧
+      Event.cmd (frame CMD25 start) ∈ pre ∧ AllPolls polls ∧ polls ≠ [] ∧
+      ((polls.getLast? = some (.poll 255) ∧ ∃ post, rest = Event.byte 0xFD :: post ∧ AllPolls post ∧
+          ((write B blocks idx s).1 = .ok () → post.getLast? = some (.poll 255))) ∨
+       (rest = [] ∧ polls.getLast? ≠ some (.poll 255) ∧ ∃ e, (write B blocks idx s).1 = .err e)) :=
+  Lemmas.Sd.write_multi_stopped B blocks idx start hne s hstart r0 s1 s2 r1 s3 hacmd hwait h25
+
 /-- A multi-block write that succeeds has sent the stop token 0xFD right after a poll that showed
-the card not busy; after the stop token only the polls of the final `wait_not_busy` follow (the
-driver waits for the card to finish programming), and the last of them showed the card not busy
-again. -/
+the card not busy; after the stop token only polls follow — one byte that is clocked and discarded
+(the card may take a byte to signal busy), then the final `wait_not_busy` (the driver waits for the
+card to finish programming) — and the last of them showed the card not busy again. -/
 theorem multi_write_terminated (blocks : List Bytes) (idx : Nat) (hne : ∀ b, blocks ≠ [b]) (s : St σ)
     (hok : (write B blocks idx s).1 = .ok ()) :
     ∃ pre post, evsNew s (write B blocks idx s).2 = pre ++ [Event.poll 255, Event.byte 0xFD] ++ post ∧
